@@ -241,7 +241,7 @@ func runC07(c *an.Ctx) {
 
 // c07ProgressAllow: no-progress paths that are infeasible for a reason the path search does not see.
 var c07ProgressAllow = map[string]string{
-	"internal/strings.RandomString|i": "rejection sampling over a random source: the position is kept when the drawn index falls outside the alphabet, which happens with probability < 1/2 per draw and does not depend on any input",
+	"internal/strings.RandomString": "rejection sampling over a random source: the position is kept when the drawn index falls outside the alphabet, which happens with probability < 1/2 per draw and does not depend on any input",
 }
 
 // c07EdgeInfeasible: the CFG edge pred->succ is the false side of a test `v > 0` (v >= 1, v != 0) where v is
@@ -576,8 +576,7 @@ func c07Progress(c *an.Ctx) {
 				c.Ok("R10", fmt.Sprintf("%s: scanning loop #%d advances on every path", an.RelName(fn), n), ifi.Pos(), "a value of the continuation test changes on every path of an iteration")
 				continue
 			}
-			k := an.RelName(fn) + "|" + strings.Join(where, ",")
-			if why, ok := c07ProgressAllow[k]; ok {
+			if why, ok := c07ProgressAllow[an.RelName(fn)]; ok {
 				c.Note("R10", fmt.Sprintf("%s: scanning loop over %s", an.RelName(fn), strings.Join(where, ",")), ifi.Pos(), "not decided mechanically; manual argument: "+why)
 				continue
 			}
